@@ -39,7 +39,9 @@ LEVEL_TEXT = ("Theorems (Lean 4, all (ip,len), no size bound): every derived val
               "spelling, as 'a', 'a/len' or 'a len' with surrounding blanks, parses to its value through regex automaton, blank-to-slash "
               "rewrite, the 49-character guard on the normalised text and the stdlib layer (v6_text_forms, v6_text_forms_plain; "
               "the exploded and RFC 5952 compressed texts are instances), and every accepted text IS such a spelling of exactly the "
-              "stored address followed by ASCII digits whose value is the stored length, everything else raises (v6_rejects). "
+              "stored address followed by ASCII digits whose value is the stored length, everything else raises (v6_rejects). RFC 5952 canonicity of the printed text is proved on the zero pattern of the "
+              "groups (leftmost longest run of >= 2 zero groups, text = before::after; strV6_canonical_partial), the bridge to the "
+              "Spec predicate IsShortened/hexShort is not proved. "
               "The model (its re-implementation of the stdlib parsing routines and of "
               "the two regexes included) is tied to the code by differential runs on every check, and the implementation's answers are "
               "compared to the real `ipaddress` module independently.")
